@@ -7,11 +7,13 @@ PROP = dict(
     props="Props/C07.v",
     tie={"modules": ["Store", "StoreSpec", "MemStore", "TieC07"],
          "fns": {"store_run": ("store_run_run", "store_run_eqb", "(list op) * (list ans)"),
-                 "mem_run": ("mem_run_run", "store_run_eqb", "(list mop) * (list ans)")}},
+                 "mem_run": ("mem_run_run", "store_run_eqb", "(list mop) * (list ans)"),
+                 "concurrent_views": ("concurrent_views_run", "Bool.eqb", "Z * bool")}},
     suites=[{"bin": "c07", "name": "store", "n": {"quick": 240, "thorough": 5000}},
             {"bin": "c07", "name": "reorg", "n": {"quick": 100, "thorough": 3000}},
             {"bin": "c07", "name": "mem", "n": {"quick": 150, "thorough": 3000}},
-            {"bin": "c07", "name": "deep", "n": {"quick": 3, "thorough": 40}}],
+            {"bin": "c07", "name": "deep", "n": {"quick": 3, "thorough": 40}},
+            {"bin": "c07", "name": "concurrent", "n": {"quick": 3, "thorough": 60}, "race": True}],
     rule="random operation sequences (40-100 ops) on a real LevelDB manager in a temp dir: commit on the frontier / on stale parents (older, abandoned, zero) / rollback / open view at any identifier (on chain at any depth, abandoned, unknown, zero, right hash wrong height) / get / has / prefix scan / put / delete / snapshot / change set / cache purge / GetPatch / Subset(prefix) / Apply(patch); the same on the in-memory manager with 1-3 commits per transaction (suite mem); keys from a 4-letter alphabet of length 1-3 (shared prefixes) plus all keys of the history, values incl. empty and [0]; every answer is compared with the model (one case = one whole sequence) and with a map-per-version reference (oracle); distinct = distinct sequence; non-trivial = contains at least one of {historical view, pop, stale parent, snapshot, view write, evict} (tag != plain)",
     explanation="Theorems: the model refines the specification on every well-formed operation sequence (C07_refines_spec, induction over the sequence with a simulation relation: decoded frontier = head state, undo patches restore the previous state, cached overlays are valid differences); corollaries for get/has/scan exactness of a view after arbitrary later operations, refusal of stale parents, locality of view writes, snapshots, change sets. Modelled: see trusted_base. The implementation is compared with the model on every run, sequence by sequence.",
     assumptions=["operations are well-formed (wf_ops): a frontier commit has height = frontier height + 1, a hash not on the chain, and does not write keys starting with bytes 0,1,2 (the manager's own keys); Pop only on a non-empty chain (the Go code would dereference a nil patch)",
